@@ -1342,6 +1342,81 @@ fn gen_sil(em: &mut Em, rng: &mut Rng) {
     }
 }
 
+/// op `sils cl=.. x=.. l=..`: the silhouette of a dataset whose label counts are stale (counted on
+/// `cl`, targets overwritten with `l` afterwards).  Outside the statement unless the counts are those
+/// of the data (then: full oracle); otherwise model (`silhouetteC`) against code only — stale cluster
+/// sizes as divisors, the `unwrap` panic on an uncached label.
+fn op_sil_stale(em: &mut Em, x: Vec<Vec<f64>>, cached: Vec<usize>, l: Vec<usize>) {
+    let n = x.len();
+    let d = x[0].len();
+    let counts = |v: &Vec<usize>| {
+        let mut m = std::collections::BTreeMap::new();
+        v.iter().for_each(|c| *m.entry(*c).or_insert(0usize) += 1);
+        m
+    };
+    let (cc, cl) = (counts(&cached), counts(&l));
+    let kind = if cc == cl { "fresh" } else if l.iter().any(|c| !cc.contains_key(c)) { "uncached_label" } else { "stale_counts" };
+    em.count(&format!("sils:{}", kind));
+    let op = format!("sils cl={} x={} l={}", list(cached.iter(), |v| v.to_string()), list2(x.iter().map(|r| r.iter()), |v| hex64(*v)), list(l.iter(), |v| v.to_string()));
+    let dist = |i: usize, j: usize| -> f64 { x[i].iter().zip(x[j].iter()).map(|(a, b)| (a - b) * (a - b)).sum::<f64>().sqrt() };
+    let labels: Vec<usize> = cl.keys().copied().collect();
+    let covered = kind == "fresh" && labels.len() >= 2 && labels.iter().all(|c| {
+        let members: Vec<usize> = (0..n).filter(|i| l[*i] == *c).collect();
+        members.len() >= 2 && members.iter().any(|i| x[*i] != x[members[0]])
+    });
+    em.case(op, |ctx| {
+        let rec = Array2::from_shape_fn((n, d), |(i, j)| x[i][j]);
+        let v = forms::call_sil_stale(rec, &cached, &l).expect("silhouette");
+        if covered {
+            let mut total = 0.0;
+            for i in 0..n {
+                let own: Vec<usize> = (0..n).filter(|j| *j != i && l[*j] == l[i]).collect();
+                let a = own.iter().map(|j| dist(i, *j)).sum::<f64>() / own.len() as f64;
+                let b = labels.iter().filter(|c| **c != l[i]).map(|c| {
+                    let m: Vec<usize> = (0..n).filter(|j| l[*j] == *c).collect();
+                    m.iter().map(|j| dist(i, *j)).sum::<f64>() / m.len() as f64
+                }).fold(f64::INFINITY, f64::min);
+                total += (b - a) / a.max(b);
+            }
+            let want = total / n as f64;
+            ctx.require(close(v, want, 1e-9), "silhouette_def", "sils:fresh", || format!("silhouette {} want {}", v, want));
+        }
+        format!("ok {}", tl(v))
+    });
+    if em.only.is_none() {
+        let last = em.outs.last().cloned().unwrap_or_default();
+        em.count(&format!("ok:sils:{}", if last.starts_with("ok") { kind } else { "panic" }));
+    }
+}
+
+fn gen_sil_stale(em: &mut Em, rng: &mut Rng) {
+    let reps = if em.thorough() { 1500 } else { 150 };
+    for r in 0..reps {
+        let (x, l, _) = random_sil(rng, false, 64);
+        let n = l.len();
+        if n == 0 {
+            continue;
+        }
+        let a = l.iter().copied().max().unwrap_or(0) + 2;
+        let mut cached = l.clone();
+        match r % 3 {
+            0 => rng.shuffle(&mut cached),
+            1 => {
+                let gone = l[rng.below(n)];
+                let by = rng.below(a);
+                cached.iter_mut().for_each(|v| if *v == gone { *v = by });
+            }
+            _ => {
+                for _ in 0..(1 + rng.below(3)) {
+                    let i = rng.below(n);
+                    cached[i] = rng.below(a);
+                }
+            }
+        }
+        op_sil_stale(em, x, cached, l);
+    }
+}
+
 // ------------------------------------------------------------------ Pearson
 
 fn observe_pearson(form: usize, w: usize, x: &[Vec<f64>], p: usize) -> Vec<f64> {
@@ -1525,6 +1600,9 @@ fn floors(em: &mut Em) {
     for f in 1..forms::SIL_FORMS {
         add(&[&format!("silf:form={}", forms::SIL_FORM_NAMES[f])], 40);
     }
+    add(&["sils:fresh"], 25);
+    add(&["sils:stale_counts"], 25);
+    add(&["sils:uncached_label"], 15);
     add(&["pearson:", "p=5+"], 60);
     add(&["pearson:"], 250);
     add(&["pearson32:", "p=5+"], 20);
@@ -1554,6 +1632,7 @@ pub fn run(em: &mut Em, rng: &mut Rng) {
     gen_reg(em, rng);
     gen_reg_forms(em, rng);
     gen_sil(em, rng);
+    gen_sil_stale(em, rng);
     gen_pearson(em, rng);
     floors(em);
 }
